@@ -32,7 +32,10 @@ def run(m, tier='quick'):
             p = subprocess.run(cmd, cwd=HERE, env=env, capture_output=True, text=True)
             viol = [l for l in p.stdout.split('\n') if l.startswith('VIOLATION')]
             sigs = [l.strip() for l in p.stdout.split('\n') if l.strip().startswith('signature:')]
-            out[prop] = ('CAUGHT' if p.returncode == 1 and viol else f'MISSED(exit {p.returncode})', sigs[:3])
+            if m.get('expect') == 'pass':
+                out[prop] = ('QUIET' if p.returncode == 0 and not viol else f'ALARM(exit {p.returncode})', sigs[:3])
+            else:
+                out[prop] = ('CAUGHT' if p.returncode == 1 and viol else f'MISSED(exit {p.returncode})', sigs[:3])
         return out
     finally:
         shutil.rmtree(tmp, ignore_errors=True)
